@@ -137,6 +137,12 @@ def main():
     core.lap('TraceDeck validation')
     chk.cov['traces_validated_against_impl'] = len(verdicts)
     chk.cov['evaluations'] = 2 * len(verdicts)
+    # the cell parser judged on its own output (stage "parsed"): every LIKE n BUT card must be read as the abstract
+    # deck says (universe, importance zero or not, FILL universe and transformation, TRCL, material)
+    from .. import pipeline
+    sub = [nd[t] for t in sorted(nd)][::max(1, len(nd) // (1500 if thorough else 250))]
+    pipeline.check_decks(chk, sub, lambda d, r: [[]], chk.seed)
+    chk.cov['traces_validated_against_impl'] += chk.extra.get('pipeline_traces', 0)
     byid = {r['tid']: r for r in good}
     nt = 0
     for tid, v in sorted(verdicts.items()):
